@@ -600,11 +600,79 @@ Lemma lex_next_eof : forall l, lrest l = [] ->
   lex_next l = LexTok (simple TEOF (lstart l)) (mkLexer [] (lpos l) (lstart l)).
 Proof. intros l E. rewrite lex_next_unfold. rewrite E. reflexivity. Qed.
 
+(* ---- a whole token list under an arbitrary horizontal layout *)
+
+(* (white space, token) pairs, then trailing white space *)
+Fixpoint lay (items : list (bytes * stoken)) (trail : bytes) : bytes :=
+  match items with
+  | [] => trail
+  | (ws, k) :: r => ws ++ spell k ++ lay r trail
+  end.
+
+(* every gap is horizontal white space; only the first may be empty *)
+Fixpoint gaps_ok (first : bool) (items : list (bytes * stoken)) : bool :=
+  match items with
+  | [] => true
+  | (ws, k) :: r =>
+    forallb is_hws ws && (first || match ws with [] => false | _ => true end) && wf_tok k && gaps_ok false r
+  end.
+
+Lemma lay_sep : forall items trail,
+  gaps_ok false items = true -> forallb is_hws trail = true -> sep_ok (lay items trail) = true.
+Proof.
+  intros [|[ws k] r] trail H Ht.
+  - simpl. destruct trail as [|c t]; [reflexivity|]. simpl in *.
+    apply andb_true_iff in Ht. destruct Ht as [Ht _]. unfold is_sep. now rewrite Ht.
+  - simpl in H. repeat (apply andb_true_iff in H; destruct H as [H ?]).
+    destruct ws as [|c ws]; [discriminate|]. simpl. simpl in H.
+    apply andb_true_iff in H. destruct H as [H _]. unfold is_sep. now rewrite H.
+Qed.
+
+Lemma lex_next_trail : forall trail pos st,
+  forallb is_hws trail = true ->
+  lex_next (mkLexer trail pos st) = LexTok (simple TEOF st) (mkLexer [] (pos + length trail) st).
+Proof.
+  intros trail pos st H. rewrite lex_next_unfold. cbn [lrest lpos lstart].
+  rewrite <- (app_nil_r trail) at 1. rewrite skip_ws_run by auto. reflexivity.
+Qed.
+
 (* ------------------------------------------------------------ lexer invariant *)
 
-(* the lexer sits in [src] in front of the tokens [ts], each preceded by one space *)
+(* the canonical layout: nothing before the first token, one space before the others *)
+Definition space_items (ts : list stoken) : list (bytes * stoken) :=
+  match ts with
+  | [] => []
+  | k :: r => ([], k) :: map (fun k' => ([32%N], k')) r
+  end.
+
+Lemma lay_spaces : forall r, lay (map (fun k' => ([32%N], k')) r) [] = tail_text r.
+Proof. induction r as [|k r IH]; [reflexivity|]. cbn [map lay tail_text]. rewrite IH. reflexivity. Qed.
+
+Lemma text_of_lay : forall ts, text_of ts = lay (space_items ts) [].
+Proof. intros [|k r]; [reflexivity|]. cbn [space_items lay text_of]. now rewrite lay_spaces. Qed.
+
+Lemma snd_space_items : forall ts, map snd (space_items ts) = ts.
+Proof.
+  intros [|k r]; [reflexivity|]. cbn [space_items map snd]. f_equal.
+  induction r as [|k' r IH]; [reflexivity|]. cbn [map snd]. now rewrite IH.
+Qed.
+
+Lemma gaps_space_items : forall ts, forallb wf_tok ts = true -> gaps_ok true (space_items ts) = true.
+Proof.
+  intros [|k r] H; [reflexivity|]. cbn [forallb] in H. apply andb_true_iff in H. destruct H as [Hk Hr].
+  cbn [space_items gaps_ok forallb orb andb]. rewrite Hk. cbn [andb].
+  induction r as [|k' r IH]; [reflexivity|].
+  cbn [forallb] in Hr. apply andb_true_iff in Hr. destruct Hr as [Hk' Hr].
+  cbn [map gaps_ok forallb orb andb]. rewrite Hk'. cbn [andb]. change (is_hws 32%N) with true. cbn [andb].
+  apply IH. exact Hr.
+Qed.
+
+(* the lexer sits in [src] in front of the tokens [ts], each preceded by a non-empty gap of
+   horizontal white space; trailing white space may follow the last one *)
 Definition LexAt (src : bytes) (l : lexer) (ts : list stoken) : Prop :=
-  (exists pre, src = pre ++ lrest l /\ length pre = lpos l) /\ lrest l = tail_text ts.
+  (exists pre, src = pre ++ lrest l /\ length pre = lpos l) /\
+  exists items trail, map snd items = ts /\ gaps_ok false items = true /\
+                      forallb is_hws trail = true /\ lrest l = lay items trail.
 
 Lemma tail_text_sep : forall ts, sep_ok (tail_text ts) = true.
 Proof. intros [|k ts]; reflexivity. Qed.
@@ -613,42 +681,75 @@ Lemma lex_next_at : forall src l k ts,
   LexAt src l (k :: ts) -> wf_tok k = true ->
   exists tok l', lex_next l = LexTok tok l' /\ tok_matches src tok k /\ LexAt src l' ts.
 Proof.
-  intros src l k ts [[pre [Hsrc Hlen]] Hrest] Hwf.
-  simpl in Hrest.
-  rewrite (lex_next_ws l [32%N] k (tail_text ts)); auto using tail_text_sep.
+  intros src l k ts [[pre [Hsrc Hlen]] [items [trail [Hmap [Hg [Ht Hrest]]]]]] Hwf.
+  destruct items as [|[ws k0] r]; [discriminate Hmap|].
+  cbn [map snd] in Hmap. inversion Hmap as [[Ek Er]]. subst k0. clear Hmap.
+  cbn [gaps_ok orb] in Hg. repeat (apply andb_true_iff in Hg; destruct Hg as [Hg ?]).
+  rename H into Hr, H0 into Hk, H1 into Hne, Hg into Hws.
+  cbn [lay] in Hrest.
+  rewrite (lex_next_ws l ws k (lay r trail) Hrest Hws Hwf (lay_sep r trail Hr Ht)).
   eexists. eexists. split; [reflexivity|]. split.
-  - rewrite Hsrc, Hrest. simpl length.
-    replace (pre ++ 32%N :: spell k ++ tail_text ts) with ((pre ++ [32%N]) ++ spell k ++ tail_text ts)
+  - rewrite Hsrc, Hrest.
+    replace (pre ++ ws ++ spell k ++ lay r trail) with ((pre ++ ws) ++ spell k ++ lay r trail)
       by (rewrite <- app_assoc; reflexivity).
-    replace (lpos l + 1) with (length (pre ++ [32%N])) by (rewrite app_length; simpl; lia).
+    replace (lpos l + length ws) with (length (pre ++ ws)) by (rewrite app_length; unfold byte, bytes in *; lia).
     apply tok_of_matches.
-  - split; [|reflexivity]. simpl lrest. simpl lpos.
-    exists (pre ++ 32%N :: spell k). split.
-    + rewrite Hsrc, Hrest. rewrite <- app_assoc. reflexivity.
-    + rewrite app_length. simpl. lia.
+  - split.
+    + cbn [lrest lpos]. exists (pre ++ ws ++ spell k). split.
+      * rewrite Hsrc, Hrest. rewrite <- !app_assoc. reflexivity.
+      * rewrite !app_length. unfold byte, bytes in *. lia.
+    + exists r, trail. cbn [lrest]. auto.
 Qed.
 
 Lemma lex_next_at_eof : forall src l,
   LexAt src l [] ->
   exists tok l', lex_next l = LexTok tok l' /\ ttag tok = TEOF /\ LexAt src l' [].
 Proof.
-  intros src l [[pre [Hsrc Hlen]] Hrest]. simpl in Hrest.
-  rewrite lex_next_eof by auto.
-  eexists. eexists. split; [reflexivity|]. split; [reflexivity|].
-  split; [|reflexivity]. simpl. exists pre. rewrite Hsrc, Hrest. auto.
+  intros src l [[pre [Hsrc Hlen]] [items [trail [Hmap [Hg [Ht Hrest]]]]]].
+  destruct items as [|[ws k0] r]; [|discriminate Hmap]. cbn [lay] in Hrest.
+  assert (E : lex_next l = LexTok (simple TEOF (lstart l)) (mkLexer [] (lpos l + length trail) (lstart l))).
+  { destruct l as [lr lp ls]. cbn [lrest lpos lstart] in *. subst lr. apply lex_next_trail. exact Ht. }
+  rewrite E. eexists. eexists. split; [reflexivity|]. split; [reflexivity|].
+  split.
+  - cbn [lrest lpos]. exists (pre ++ trail). split.
+    + rewrite Hsrc, Hrest. now rewrite app_nil_r.
+    + rewrite app_length. unfold byte, bytes in *. lia.
+  - exists [], []. cbn [lrest]. auto.
 Qed.
 
-(* the very first token of a text: no space in front *)
+(* the very first token of a text: the gap in front may be empty *)
+Lemma lex_next_first_lay : forall ws k r trail,
+  gaps_ok true ((ws, k) :: r) = true -> forallb is_hws trail = true ->
+  exists tok l', lex_next (new_lexer (lay ((ws, k) :: r) trail)) = LexTok tok l' /\
+    tok_matches (lay ((ws, k) :: r) trail) tok k /\ LexAt (lay ((ws, k) :: r) trail) l' (map snd r).
+Proof.
+  intros ws k r trail Hg Ht.
+  cbn [gaps_ok orb] in Hg. repeat (apply andb_true_iff in Hg; destruct Hg as [Hg ?]).
+  rename H into Hr, H0 into Hk, Hg into Hws.
+  cbn [lay].
+  rewrite (lex_next_ws (new_lexer (ws ++ spell k ++ lay r trail)) ws k (lay r trail) eq_refl Hws Hk
+             (lay_sep r trail Hr Ht)).
+  eexists. eexists. split; [reflexivity|]. split.
+  - cbn [new_lexer lpos]. apply (tok_of_matches ws k (lay r trail)).
+  - split.
+    + cbn [lrest lpos new_lexer]. exists (ws ++ spell k). split.
+      * now rewrite <- app_assoc.
+      * rewrite app_length. unfold byte, bytes in *. lia.
+    + exists r, trail. cbn [lrest]. auto.
+Qed.
+
 Lemma lex_next_first : forall k ts,
-  wf_tok k = true ->
+  forallb wf_tok (k :: ts) = true ->
   exists tok l', lex_next (new_lexer (text_of (k :: ts))) = LexTok tok l' /\
     tok_matches (text_of (k :: ts)) tok k /\ LexAt (text_of (k :: ts)) l' ts.
 Proof.
-  intros k ts Hwf.
-  rewrite (lex_next_ws (new_lexer (text_of (k :: ts))) [] k (tail_text ts)); auto using tail_text_sep.
-  eexists. eexists. split; [reflexivity|]. split.
-  - simpl. apply (tok_of_matches [] k (tail_text ts)).
-  - split; [|reflexivity]. simpl. exists (spell k). split; [reflexivity|lia].
+  intros k ts Hwf. rewrite text_of_lay.
+  pose proof (gaps_space_items (k :: ts) Hwf) as Hg. cbn [space_items] in *.
+  destruct (lex_next_first_lay [] k (map (fun k' => ([32%N], k')) ts) [] Hg eq_refl)
+    as [tok [l' [E [Hm Hl]]]].
+  exists tok, l'. split; [exact E|]. split; [exact Hm|].
+  pose proof (snd_space_items (k :: ts)) as Hs. cbn [space_items map snd] in Hs.
+  inversion Hs as [Hs']. rewrite Hs' in Hl. rewrite Hs'. exact Hl.
 Qed.
 
 (* ================================================================= C13 statements *)
@@ -816,40 +917,6 @@ Proof.
 Qed.
 
 (* ---- a whole token list under an arbitrary horizontal layout *)
-
-(* (white space, token) pairs, then trailing white space *)
-Fixpoint lay (items : list (bytes * stoken)) (trail : bytes) : bytes :=
-  match items with
-  | [] => trail
-  | (ws, k) :: r => ws ++ spell k ++ lay r trail
-  end.
-
-(* every gap is horizontal white space; only the first may be empty *)
-Fixpoint gaps_ok (first : bool) (items : list (bytes * stoken)) : bool :=
-  match items with
-  | [] => true
-  | (ws, k) :: r =>
-    forallb is_hws ws && (first || match ws with [] => false | _ => true end) && wf_tok k && gaps_ok false r
-  end.
-
-Lemma lay_sep : forall items trail,
-  gaps_ok false items = true -> forallb is_hws trail = true -> sep_ok (lay items trail) = true.
-Proof.
-  intros [|[ws k] r] trail H Ht.
-  - simpl. destruct trail as [|c t]; [reflexivity|]. simpl in *.
-    apply andb_true_iff in Ht. destruct Ht as [Ht _]. unfold is_sep. now rewrite Ht.
-  - simpl in H. repeat (apply andb_true_iff in H; destruct H as [H ?]).
-    destruct ws as [|c ws]; [discriminate|]. simpl. simpl in H.
-    apply andb_true_iff in H. destruct H as [H _]. unfold is_sep. now rewrite H.
-Qed.
-
-Lemma lex_next_trail : forall trail pos st,
-  forallb is_hws trail = true ->
-  lex_next (mkLexer trail pos st) = LexTok (simple TEOF st) (mkLexer [] (pos + length trail) st).
-Proof.
-  intros trail pos st H. rewrite lex_next_unfold. cbn [lrest lpos lstart].
-  rewrite <- (app_nil_r trail) at 1. rewrite skip_ws_run by auto. reflexivity.
-Qed.
 
 Lemma lex_all_layout_gen : forall items trail first pre pos st fuel,
   gaps_ok first items = true -> forallb is_hws trail = true ->
